@@ -129,14 +129,21 @@ class ForecasterOnePhase:
             the time-to-depletion (BDF), using the same units as time on prod.
             If not provided, will find best tau.
         """
+        # likewise tau is fitted in units of the longest time on production
+        time_scale = float(np.max(np.abs(time_on_production)))
+        if not (np.isfinite(time_scale) and time_scale > 0):
+            time_scale = 1.0
         if tau is None:
             p0 = [cum_production[-1] * 2, time_on_production[-1] * 5]
             bounds = self.bounds.fit_bounds()
             p0 = self.bounds.regularize_initial_guess(p0)
+            p0[1] = p0[1] / time_scale
 
             def forecast(time_on_production, M, tau):
                 """Forecast cumulative production."""
-                return _forecast_cum_onephase(self.rf_curve, time_on_production, M, tau)
+                return _forecast_cum_onephase(
+                    self.rf_curve, time_on_production, M, tau * time_scale
+                )
 
         else:
             p0 = [
@@ -157,7 +164,8 @@ class ForecasterOnePhase:
         p0[0] = p0[0] / scale
         M_bounds = (self.bounds.M[0] / scale, self.bounds.M[1] / scale)
         if tau is None:
-            bounds = tuple(zip(M_bounds, self.bounds.tau))
+            tau_bounds = (self.bounds.tau[0] / time_scale, self.bounds.tau[1] / time_scale)
+            bounds = tuple(zip(M_bounds, tau_bounds))
         else:
             bounds = M_bounds
         fit, covariance = curve_fit(
@@ -171,7 +179,7 @@ class ForecasterOnePhase:
         self.cum_production = cum_production
         self.M_ = min(max(fit[0] * scale, self.bounds.M[0]), self.bounds.M[1])
         if tau is None:
-            self.tau_ = fit[1]
+            self.tau_ = min(max(fit[1] * time_scale, self.bounds.tau[0]), self.bounds.tau[1])
         else:
             self.tau_ = tau
 
